@@ -33,6 +33,9 @@ def run(repo, report, tier):
     report.rule("C04.R7", "minimal_report: each documented column of --report=minimal shows the tally it is documented to show (reads/bases in, per-filter counts, reads out, R1/R2 with adapters, R1/R2 quality-trimmed bases, R1/R2 bases out), with Statistics' one-line properties resolved to what they compute",
                 "a column of the minimal report shows another quantity (e.g. bases of both reads under out_bp), so the report no longer adds up with the files")
     report.guard("C04.R7", "minimal_report", r7_minimal_columns, repo, report)
+    report.rule("C04.R8", "no two writers share a file: main() hands every output option to complain_about_duplicate_paths, and that function compares a normalised form of the path (so that two spellings of one file are recognised) and raises on a repeat",
+                "the same file is opened by two writers: one overwrites the other's records while the report counts both as written")
+    report.guard("C04.R8", "duplicate output paths", r8_duplicate_paths, repo, report)
     from . import builder_rules
 
     report.rule("C04.R4", "on every builder path the steps list ends with a consuming sink (writer or demultiplexer) and nothing follows it",
@@ -455,3 +458,50 @@ def r7_minimal_columns(repo, report):
     report.ob("C04.R7", "minimal_report columns", not bad and n >= 12, facts={"columns": n, "problems": bad[:3]}, cases=n, loc=repo.loc(mr),
               expected="each column shows its documented tally (doc/guide.rst, 'Minimal report'), e.g. out_bp = bases written to R1, out2_bp = bases written to R2",
               why=(f"column {bad[0]['column']} shows {bad[0].get('shows')}, documented is {bad[0].get('documented')}" if bad else ""))
+
+
+_OUTPUT_OPTIONS = ("output", "paired_output", "untrimmed_output", "untrimmed_paired_output", "too_short_output", "too_short_paired_output",
+                   "too_long_output", "too_long_paired_output", "rest_file", "info_file", "wildcard_file")
+_NORMALISERS = ("os.path.realpath", "os.path.abspath", "os.path.normpath", "realpath", "abspath")
+
+
+def r8_duplicate_paths(repo, report):
+    from ..localroles import cli_main
+    m = cli_main(repo)
+    cs = [x for x in ast.walk(m) if isinstance(x, ast.Call) and chain(x.func) == "complain_about_duplicate_paths"]
+    given = set()
+    if len(cs) == 1 and cs[0].args and isinstance(cs[0].args[0], (ast.List, ast.Tuple)):
+        given = {chain(e).split(".", 1)[1] for e in cs[0].args[0].elts if chain(e) and "." in chain(e)}
+    missing = [o for o in _OUTPUT_OPTIONS if o not in given]
+    report.ob("C04.R8", "main checks every output option for repeated paths", len(cs) == 1 and not missing, facts={"checked": sorted(given), "missing": missing}, loc=repo.loc(cs[0]) if cs else repo.loc(m),
+              expected="complain_about_duplicate_paths([... all eleven output options ...]) before any file is opened",
+              why=(f"--{missing[0].replace('_', '-')} is not part of the duplicate check" if missing else ""))
+    fn = repo.func("cli", "complain_about_duplicate_paths")
+    if fn is None:
+        raise Unrecognised("cli.complain_about_duplicate_paths not found")
+    loops = [x for x in ast.walk(fn) if isinstance(x, ast.For) and isinstance(x.target, ast.Name)]
+    if len(loops) != 1:
+        raise Unrecognised("complain_about_duplicate_paths: one loop over the paths expected", repo.loc(fn))
+    lp = loops[0]
+    v = lp.target.id
+    from ..repo import expand
+    tests = [x for x in ast.walk(lp) if isinstance(x, ast.Compare) and len(x.ops) == 1 and isinstance(x.ops[0], ast.In) and isinstance(x.comparators[0], ast.Name)]
+    adds = [x for x in ast.walk(lp) if isinstance(x, ast.Call) and isinstance(x.func, ast.Attribute) and x.func.attr == "add" and len(x.args) == 1]
+    seen = {src(t.comparators[0]) for t in tests} & {src(a.func.value) for a in adds}
+
+    def normalised(e):
+        e = expand(fn, e)
+        if isinstance(e, ast.Call) and chain(e.func) in _NORMALISERS and e.args and chain(e.args[0]) == v:
+            return True
+        if isinstance(e, ast.Call) and isinstance(e.func, ast.Attribute) and e.func.attr in ("resolve", "absolute") and v in src(e.func.value):
+            return True
+        return False
+
+    t_ok = [t for t in tests if src(t.comparators[0]) in seen]
+    a_ok = [a for a in adds if src(a.func.value) in seen]
+    facts = {"membership_test": [src(expand(fn, t.left)) for t in t_ok], "stored": [src(expand(fn, a.args[0])) for a in a_ok]}
+    raises = any(isinstance(par, ast.If) and any(isinstance(r_, ast.Raise) for r_ in par.body) for t in t_ok for par in [getattr(t, "_parent", None)])
+    ok = len(t_ok) == 1 and len(a_ok) == 1 and normalised(t_ok[0].left) and normalised(a_ok[0].args[0]) and raises
+    report.ob("C04.R8", "complain_about_duplicate_paths compares normalised paths", ok, facts=facts, loc=repo.loc(fn),
+              expected="if norm(path) in seen: raise ...; seen.add(norm(path)) with norm = os.path.realpath / abspath",
+              why="" if ok else "paths are compared as the strings the user typed: 'out.fq' and './out.fq' name one file but pass the check, the file is opened twice and records of one writer overwrite the other's")
